@@ -40,6 +40,82 @@ pub fn run_c04(ctx: &Ctx, st: &mut Local) {
     };
     let mut g = |st: &mut Local, eng: &str, i: u64, c: &FileCase| c04_file_check(ctx, st, eng, i, &c.bytes);
     e9_filespace(ctx, "E9", &cfg, st, &mut g);
+
+    // forced parameter classes: the reference codes the corrections under its estimator's vector with the
+    // hash algorithm / add policy / matching type replaced (all values the estimator emits for some
+    // stream), so that every prediction path is part of the cross-build comparison even where the
+    // estimator rarely chooses it for the streams at hand
+    let hashes: Vec<Vec<(usize, u32)>> = vec![
+        vec![(4, 2)], vec![(4, 1), (5, 5), (6, 32767)], vec![(4, 1), (5, 4), (6, 2047)], vec![(4, 3)], vec![(4, 4)], vec![(4, 5)], vec![(4, 6)], vec![(4, 7)],
+    ];
+    let addp: Vec<Vec<(usize, u32)>> = vec![vec![(16, 0)], vec![(16, 1), (17, 4)], vec![(16, 2), (17, 6)], vec![(16, 3)], vec![(16, 4)]];
+    let matchings: Vec<Vec<(usize, u32)>> = vec![vec![(11, 0), (12, 0), (13, 258)], vec![(11, 4), (12, 4), (13, 16)], vec![(11, 8), (12, 16), (13, 128)]];
+    let mut h = |st: &mut Local, eng: &str, idx: u64, c: &StreamCase| {
+        let d = &c.bytes;
+        let est = match caught(|| ctx.refb.estimate(d)) {
+            Ok(Ok(v)) if v[0] <= 1 => v,
+            _ => {
+                st.outcome(eng, "no-dictionary-parameters");
+                return;
+            }
+        };
+        let mut ok = 0u64;
+        let mut rej = 0u64;
+        for hh in &hashes {
+            for a in &addp {
+                for m in &matchings {
+                    let mut v = est.clone();
+                    for &(i, x) in hh.iter().chain(a.iter()).chain(m.iter()) {
+                        v[i] = x;
+                    }
+                    normalise(&mut v);
+                    let (plain, corr, consumed) = match caught(|| ctx.refb.corrections_with_params(d, &v)) {
+                        Ok(Ok(x)) => x,
+                        _ => {
+                            rej += 1;
+                            continue;
+                        }
+                    };
+                    // only data the reference itself can read back counts as written by it
+                    match caught(|| ctx.refb.recompress(&plain, &corr)) {
+                        Ok(Ok(b)) if b[..] == d[..consumed] => {}
+                        _ => {
+                            rej += 1;
+                            continue;
+                        }
+                    }
+                    match caught(|| ctx.cur.recompress(&plain, &corr)) {
+                        Ok(Ok(b)) if b[..] == d[..consumed] => ok += 1,
+                        other => {
+                            let what = match other {
+                                Err(p) => format!("panics at {}", p.loc),
+                                Ok(Err(e)) => format!("fails: {}", first_line(&e.msg)),
+                                Ok(Ok(b)) => format!("rebuilds {} bytes that differ", b.len()),
+                            };
+                            st.violation(ctx.viol(eng, idx, "current-misreads-reference-data-coded-under-forced-parameters", None,
+                                format!("corrections coded by the reference under parameters {:?}: the current build {}", v, what), d));
+                            return;
+                        }
+                    }
+                }
+            }
+        }
+        let e = st.eng(eng);
+        e.traces += ok + rej;
+        *e.outcomes.entry("forced-parameters:reference-data-rebuilt-exactly".into()).or_insert(0) += ok;
+        *e.outcomes.entry("forced-parameters:reference-cannot-code-or-read".into()).or_insert(0) += rej;
+    };
+    e1_tokspace(ctx, "E1(2,7)xP", 2, if ctx.quick() { 7 } else { 9 }, Kinds { fixed: true, dynamic: false }, st, &mut h);
+    let mut hg = |st: &mut Local, e: &str, i: u64, c: &StreamCase, _k: &Comp| h(st, e, i, c);
+    let sweep: Vec<Comp> = vec![Comp::Zlib(1, 0, 15, 8), Comp::Zlib(6, 0, 15, 8), Comp::Libdeflate(6), Comp::ZlibNg(2), Comp::Miniz(1), Comp::Miniz(6)];
+    e6_lensweep(ctx, "E6lenxP", &sweep, &[1, 8], if ctx.quick() { 48 } else { 200 }, st, &mut hg);
+    let texts: Vec<(usize, usize)> = if ctx.quick() { vec![(8, 6000), (1, 2000)] } else { vec![(8, 12_000), (1, 4096), (9, 12_000), (8, 70_000)] };
+    e6_compgrid(ctx, "E6xP", &sweep, &texts, st, &mut hg);
+    for name in ["E1(2,7)xP", "E6lenxP", "E6xP"] {
+        if let Some(e) = st.engines.get_mut(name) {
+            e.notes.push("per stream: 8 hash algorithms x 5 add policies x 3 matching types substituted into the reference estimator's vector; judged only where the reference can code and read back the data itself".into());
+        }
+    }
 }
 
 // ---------------------------------------------------------------------------------------------
@@ -272,9 +348,9 @@ pub fn run_c09(ctx: &Ctx, st: &mut Local) {
         v
     };
     let texts: Vec<(usize, usize)> = if ctx.quick() {
-        vec![(1, 4096), (2, 4096), (3, 3000), (5, 20_000), (6, 8000)]
+        vec![(1, 4096), (2, 4096), (3, 3000), (5, 20_000), (6, 8000), (8, 12_000), (8, 40_000), (9, 12_000)]
     } else {
-        vec![(0, 4096), (1, 4096), (2, 4096), (3, 3000), (4, 2048), (1, 65536), (2, 70000), (5, 200_000)]
+        vec![(0, 4096), (1, 4096), (2, 4096), (3, 3000), (4, 2048), (8, 12_000), (8, 40_000), (9, 12_000), (9, 40_000), (10, 4000), (1, 65536), (2, 70000), (8, 140_000), (5, 200_000)]
     };
     let mut f = |st: &mut Local, eng: &str, _i: u64, c: &StreamCase, k: &Comp| {
         let fam = k.family();
